@@ -5,7 +5,7 @@
 From Coq Require Import ZArith List Bool.
 Import ListNotations.
 From Verif Require Import CallConv.FuncDetailModel CallConv.Abi CallConv.AbiLink CallConv.AbiProofs
-  CallConv.ShuffleModel CallConv.ShuffleProofs CallConv.ShuffleFindings CallConv.ShuffleBytesModel CallConv.ShuffleBytesProofs CallConv.SolverModel CallConv.SolverProofs CallConv.AbiVariadic CallConv.AbiWfProofs.
+  CallConv.ShuffleModel CallConv.ShuffleProofs CallConv.ShuffleFindings CallConv.ShuffleBytesModel CallConv.ShuffleBytesProofs CallConv.SolverModel CallConv.SolverProofs CallConv.SolverFullModel CallConv.SolverFullProofs CallConv.SolverFullProofs2 CallConv.SolverFullProofs3 CallConv.DecodeModel CallConv.DecodeSpec CallConv.DecodeProofs CallConv.AbiVariadic CallConv.AbiWfProofs.
 Local Open Scope Z_scope.
 
 (* Part A.  For every target environment e and signature s (any CallConvId, any var-arg index, any return type, up to 32
@@ -59,27 +59,18 @@ Theorem C06_win64_no_reg_beyond_16 : forall c ts i, 16 <= i ->
 Proof. exact win64_no_reg_beyond_16. Qed.
 Print Assumptions C06_win64_no_reg_beyond_16.
 
-(* Convention-independent well-formedness (round 3): for EVERY environment, EVERY CallConvId (light-call, 32-bit vectorcall, regparm, ...
-   included) and EVERY signature FuncDetail::init accepts: no two argument values share a register, the stack slots of the stack-passed
-   values are disjoint and in argument order, and all lie inside arg_stack_size.  One guard is necessary: an 80-bit float that gets no
-   vector register under the Win64 / x64-vectorcall positional strategy is put into an 8-byte home slot although it is 10 bytes wide. *)
-Theorem C06_locations_disjoint : forall e s d, f80_guard e s -> func_detail_init e s = R_ok d ->
+(* Convention-independent well-formedness (round 3; unconditional since round 4): for EVERY environment, EVERY CallConvId (light-call, 32-bit
+   vectorcall, regparm, ... included) and EVERY signature FuncDetail::init accepts: no two argument values share a register, the stack
+   slots of the stack-passed values are disjoint and in argument order, and all lie inside arg_stack_size.  (Round 3 needed a guard: the
+   Win64 / x64-vectorcall strategy put a 10-byte kFloat80 into an 8-byte home slot; the model now describes the code with
+   fixes/C06-win64-f80-by-ref.patch, where it is passed by reference.) *)
+Theorem C06_locations_disjoint : forall e s d, func_detail_init e s = R_ok d ->
   NoDup (map reg_key (reg_vals d)) /\
   (forall i j v w, (i < j)%nat -> nth_error (stack_vals d) i = Some v -> nth_error (stack_vals d) j = Some w ->
      fv_off v + val_bytes (cc_arch (fd_cc d)) v <= fv_off w) /\
   (forall v, In v (stack_vals d) -> 0 <= fv_off v /\ fv_off v + val_bytes (cc_arch (fd_cc d)) v <= fd_stack d).
 Proof. exact locations_disjoint. Qed.
 Print Assumptions C06_locations_disjoint.
-
-(* unconditional for every 32-bit x86 convention and every AArch64 convention *)
-Theorem C06_locations_disjoint_not_x64 : forall e s d, e_arch e <> X64 -> func_detail_init e s = R_ok d -> wf_locs d.
-Proof. exact locations_disjoint_not_x64. Qed.
-Print Assumptions C06_locations_disjoint_not_x64.
-
-(* the guard cannot be dropped: f(int, int, int, int, long double, int) on Win64 overlaps the slots at +32 and +40 *)
-Theorem C06_locations_disjoint_f80_refuted : ~ (forall e s d, func_detail_init e s = R_ok d -> wf_locs d).
-Proof. exact locations_disjoint_needs_guard. Qed.
-Print Assumptions C06_locations_disjoint_f80_refuted.
 
 (* Part B.  The validator applied to every emitted argument shuffle is sound: if it accepts (moves, clobberable locations,
    instruction list) then, from EVERY initial machine state, every destination ends up holding its argument's value, sign- or
@@ -204,3 +195,99 @@ Theorem C06_swap_drops_extension_refuted :
   exists st0, ~ dst_ok mv_7_19 (st0 (m_src mv_7_19)) (exec [IXchg (Reg 0 6) (Reg 0 7) 32 64] st0 (m_dst mv_7_19)).
 Proof. exact swap_drops_extension_refuted. Qed.
 Print Assumptions C06_swap_drops_extension_refuted.
+
+(* Round 4 (a).  The WHOLE of emit_args_assignment (SolverFullModel.fsolve: stack-destination phase with in-place widening and GP scratch,
+   the register shuffle over the GP and the vector group under shared flags, the final stack loads), for every well-formed assignment
+   (fwf_inputb: integers of 1/2/4/8 bytes in GP registers or stack slots, scalar floats / 64 / 128-bit vectors of unchanged size in vector
+   registers or stack slots, distinct sources, distinct destinations) and EVERY initial machine state: whenever the function succeeds, every
+   destination (register or SP-based slot) holds its argument converted as required; nothing outside the destinations and the work
+   registers changes, in particular no incoming stack argument; the pass loop terminates within the model's fuel; it succeeds whenever a
+   free GP work register exists for stack-to-stack moves and every swap-less group that has register destinations has a work register
+   that is not a destination.  On the one-group register fragment the model coincides with SolverModel.solve.  The model is tied to the
+   implementation by exact instruction-list equality on every generated assignment of the fragment (check stage part_B_solver_full). *)
+Theorem C06_full_solver_correct : forall a wgp wvec vs0 ms, fwf_inputb wgp wvec vs0 = true -> fsolve a wgp wvec vs0 = SOk ms ->
+  forall st0 v0, In v0 vs0 -> dst_ok (fmove_of v0) (st0 (f_cur v0)) (exec ms st0 (f_out v0)).
+Proof. exact fsolve_correct. Qed.
+Print Assumptions C06_full_solver_correct.
+Theorem C06_full_solver_frame : forall a wgp wvec vs0 ms, fwf_inputb wgp wvec vs0 = true -> fsolve a wgp wvec vs0 = SOk ms ->
+  forall st0 l, ~ In l (map f_out vs0) -> ~ In l (map (Reg 0) wgp) -> ~ In l (map (Reg 1) wvec) -> exec ms st0 l = st0 l.
+Proof. exact fsolve_frame. Qed.
+Print Assumptions C06_full_solver_frame.
+Theorem C06_full_solver_keeps_incoming : forall a wgp wvec vs0 ms, fwf_inputb wgp wvec vs0 = true -> fsolve a wgp wvec vs0 = SOk ms ->
+  forall st0 off, exec ms st0 (Mem 0 off) = st0 (Mem 0 off).
+Proof. exact fsolve_keeps_incoming. Qed.
+Print Assumptions C06_full_solver_keeps_incoming.
+Theorem C06_full_solver_terminates : forall a wgp wvec vs0, fwf_inputb wgp wvec vs0 = true -> fsolve a wgp wvec vs0 <> SFuel.
+Proof. exact fsolve_terminates. Qed.
+Print Assumptions C06_full_solver_terminates.
+Theorem C06_full_solver_total : forall a wgp wvec vs0, fwf_inputb wgp wvec vs0 = true ->
+  ((exists v, In v vs0 /\ is_regl (f_cur v) = false /\ is_regl (f_out v) = false) ->
+   exists r, In r wgp /\ ~ In (Reg 0 r) (map f_cur vs0)) ->
+  (forall g, (g = 0 \/ g = 1) -> grp_swap a g = false -> (exists v o, In v vs0 /\ f_out v = Reg g o) ->
+   exists r, In r (work_of wgp wvec g) /\ ~ In (Reg g r) (map f_out vs0)) ->
+  fsolve a wgp wvec vs0 <> SErr.
+Proof. exact fsolve_no_error. Qed.
+Print Assumptions C06_full_solver_total.
+Theorem C06_full_solver_agrees : forall t wgp wvec vs, fsolve (arch_of t) wgp wvec (map emb vs) = solve t wgp vs.
+Proof. exact fsolve_agrees. Qed.
+Print Assumptions C06_full_solver_agrees.
+
+From Coq Require Import String.
+(* Round 4 (b).  The instruction whitelist of the shuffle validator (DecodeModel.v: llvm-mc's (mnemonic, operands) -> minst), extracted and
+   used by the check for every emitted sequence.  Structure: an accepted instruction writes only its destination operand(s); a
+   memory write is SP based and attributed to the destination area with its raw displacement; a memory read is only ever
+   attributed to the incoming-argument area.  Meaning: for the general-purpose forms what the table returns executes exactly as
+   the reference semantics written from the manuals (DecodeSpec.v) says.  Table: on every operand shape the disassembler can
+   print, every accepted form is a well-formed minst whose memory writes are exact (vm_compute over tables x shapes). *)
+Theorem C06_decode_writes : forall F sa m d s i, decode_inst F sa m d s = Some i ->
+  forall l, In l (inst_writes i) -> dst_loc F d = Some l \/ dst_loc F s = Some l.
+Proof. exact decode_writes. Qed.
+Print Assumptions C06_decode_writes.
+Theorem C06_decode_mem_write_sp : forall F sa m d s i a off, decode_inst F sa m d s = Some i -> In (Mem a off) (inst_writes i) ->
+  a = 1 /\ ((d_a64 F = false /\ exists b, d = OMem b (d_sp F) off) \/
+            (d_a64 F = true /\ is_oreg d = true /\ exists b, s = OMem b (d_sp F) off)).
+Proof. exact decode_mem_write_sp. Qed.
+Print Assumptions C06_decode_mem_write_sp.
+Theorem C06_decode_mem_read_incoming : forall F sa m d s i, decode_inst F sa m d s = Some i ->
+  (forall a off, inst_src i = Some (Mem a off) -> a = 0) /\
+  (forall x y w wz, i = IXchg x y w wz -> exists g1 r1 g2 r2, x = Reg g1 r1 /\ y = Reg g2 r2).
+Proof. exact decode_mem_read_incoming. Qed.
+Print Assumptions C06_decode_mem_read_incoming.
+Theorem C06_decode_gp_value_sem : forall F sa m rd dw s i sl f st,
+  decode_inst F sa m (OReg 0 rd dw) s = Some i ->
+  isa_value (d_a64 F) m = Some f ->
+  src_loc F sa s = Some sl ->
+  In dw [8;16;32;64] -> (d_a64 F = true -> In dw [32;64]) ->
+  src_width_ok (d_a64 F) m s dw ->
+  0 <= st (Reg 0 rd) < 2 ^ 64 ->
+  exec_inst st i (Reg 0 rd) = gp_write (d_a64 F) (st (Reg 0 rd)) dw (f dw (opw s) (st sl)).
+Proof. exact decode_gp_value_sem. Qed.
+Print Assumptions C06_decode_gp_value_sem.
+Theorem C06_decode_store_sem : forall F sa m d s i b base off ml g r rw nb st,
+  decode_inst F sa m d s = Some i -> isa_store (d_a64 F) m = Some nb ->
+  (if d_a64 F then d else s) = OReg g r rw ->
+  (if d_a64 F then s else d) = OMem b base off ->
+  dst_loc F (OMem b base off) = Some ml ->
+  exec_inst st i ml = cell_write (st ml) (nb rw) (zx (nb rw) (st (Reg g r))) /\
+  (forall l, l <> ml -> exec_inst st i l = st l).
+Proof. exact decode_store_sem. Qed.
+Print Assumptions C06_decode_store_sem.
+Theorem C06_decode_xchg_sem : forall F sa a b w i st,
+  decode_inst F sa "xchg"%string (OReg 0 a w) (OReg 0 b w) = Some i ->
+  d_a64 F = false -> w = 32 \/ w = 64 -> a <> b ->
+  0 <= st (Reg 0 a) < 2 ^ 64 -> 0 <= st (Reg 0 b) < 2 ^ 64 ->
+  exec_inst st i (Reg 0 a) = x86_gp_write (st (Reg 0 a)) w (zx w (st (Reg 0 b))) /\
+  exec_inst st i (Reg 0 b) = x86_gp_write (st (Reg 0 b)) w (zx w (st (Reg 0 a))) /\
+  (forall l, l <> Reg 0 a -> l <> Reg 0 b -> exec_inst st i l = st l).
+Proof. exact decode_xchg_sem. Qed.
+Print Assumptions C06_decode_xchg_sem.
+Theorem C06_decode_table_x86 : forall m k d s i, In (m, k) x86_table -> In d (shapes 4) -> In s (shapes 4) ->
+  realistic false d = true -> realistic false s = true -> decode_inst Fx [] m d s = Some i ->
+  (wf_inst i = true \/ xchg_same i = true) /\ (mem_exact i = true \/ m = "movq2dq"%string).
+Proof. exact table_reflection_realistic_x86. Qed.
+Print Assumptions C06_decode_table_x86.
+Theorem C06_decode_table_a64 : forall m k d s i, In (m, k) a64_table -> In d (shapes 31) -> In s (shapes 31) ->
+  realistic true d = true -> realistic true s = true -> decode_inst Fa [] m d s = Some i ->
+  wf_inst i = true /\ mem_exact i = true.
+Proof. exact table_reflection_realistic_a64. Qed.
+Print Assumptions C06_decode_table_a64.
